@@ -17,6 +17,7 @@ from functools import lru_cache
 
 from ..core import MachineryError, model_check, pool_map, run_tlc, sany, validate_traces
 from ..env import Conn, LoggerStub, ServerStub, boot
+from . import c18_sched
 
 META = {
     'text': 'TLC model-checks four small specifications of linked parameters (struct <-> members, float <-> enum '
@@ -739,6 +740,8 @@ def _replay_index(i):
     try:
         return _replay_group(item)
     except Exception as e:
+        if isinstance(e, ImportError):      # no frappy to test: a machinery failure, not an observation
+            raise RuntimeError(repr(e)) from None
         return {'step': 0, 'action': {'act': 'init'}, 'expected': [], 'observed': {'exception': repr(e)[:300]},
                 'vias': [], 'variant': item[1], 'symptom': 'exception outside an access method: ' + type(e).__name__}
 
@@ -785,6 +788,8 @@ def _random_trace(arg):
     try:
         return _random_trace1(arg)
     except Exception as e:
+        if isinstance(e, ImportError):
+            raise RuntimeError(repr(e)) from None
         return {'broken': 'exception outside an access method: ' + type(e).__name__, 'detail': repr(e)[:300]}
 
 
@@ -945,7 +950,7 @@ def run(chk):
                 'step with the set of outcomes TLC printed; plus seeded random histories (30/40 operations) validated by '
                 'Trace_*. A case is distinct by (configuration, layout, action sequence) or trace seed; all are '
                 'non-trivial (every alphabet operation reads, writes or updates a linked parameter)')
-    pool = ThreadPoolExecutor(12)
+    pool = ThreadPoolExecutor(16)
     t0 = time.time()
     timing = chk.notes.setdefault('timing_s', {})
     # every other module is parsed by the TLC runs below (a parse error there is a machinery failure as well)
@@ -958,12 +963,16 @@ def run(chk):
     cfgs = [(m, f'Gen_{m}_{c}.cfg') for c in (('quick',) if quick else ('thorough', 'thorough_wide')) for m in SUBS]
     gens = [(m, cfg, pool.submit(run_tlc, 'Gen_' + m, cfg, workers=1, timeout=1100, heap='3g' if quick else '5g'))
             for m, cfg in cfgs]
+    cdesign = c18_sched.design(chk, pool)
     fgen = pool.submit(run_tlc, 'Gen_LinkedStruct', f'Gen_LinkedStruct_faults_{tier}.cfg', workers=1, timeout=900)
     # 3 random histories are recorded while the JVMs work
     ntr, ln = (150, 30) if quick else (1500, 40)
     targs = [(m, chk.seed * 7919 + i * 4 + k, ln) for k, m in enumerate(SUBS) for i in range(ntr)]
     traces = pool_map(_random_trace, targs)
     timing['record'] = round(time.time() - t0, 1)
+    # 3b two or three driver threads on one module under the deterministic scheduler (LinkedConc / LinkedSerial)
+    conc = c18_sched.executions(chk, pool)
+    timing['concurrent'] = round(time.time() - t0, 1)
     for m in mcs:
         chk.add_tlc(mcs[m].result())
     timing['mc'] = round(time.time() - t0, 1)
@@ -1056,6 +1065,7 @@ def run(chk):
                 sig['clause'] = 'trace'
                 chk.violation(sig, {'sub': m, 'trace': trace, 'failed_at': l, 'args': targs[sel[k]]})
         chk.sample({m + '_trace_prefix': traces[sel[0]][:3]})
+    c18_sched.finish(chk, cdesign, conc)
     timing['validate'] = round(time.time() - t0, 1)
     pool.shutdown()
     chk.assumptions += [
@@ -1070,6 +1080,8 @@ def run(chk):
 
 def replay(chk, rep):
     d = rep['detail']
+    if 'concurrent' in d:
+        return c18_sched.replay(chk, rep)
     sub = d['sub']
     if 'actions' in d:
         cls = WORLDS[sub]
